@@ -288,6 +288,8 @@ fn main() {
     ];
     let depth = 3;
     let ops = pool.len() * 2;
+    // descriptor ids of each pool collector (reference side): None = invalid on its own (repeats a descriptor)
+    let ids: Vec<Option<Vec<&str>>> = vec![Some(vec!["m"]), Some(vec!["m"]), Some(vec!["m"]), Some(vec![]), None, Some(vec!["p", "m"])];
     for hist in combi::sequences_upto(ops, depth) {
         if hist.is_empty() {
             continue;
@@ -295,14 +297,59 @@ fn main() {
         let reg = Registry::new();
         let inp = json!({"history": hist.iter().map(|o| format!("{}({})", if o % 2 == 0 {"register"} else {"unregister"}, pool[o / 2].0)).collect::<Vec<_>>()});
         let last = hist.len() - 1;
+        // reference: registered descriptor ids and registered collectors (as id sets)
+        let mut reg_ids: Vec<&str> = vec![];
+        let mut reg_cols: Vec<Vec<&str>> = vec![];
+        // help text ever successfully registered under a name (survives unregister)
+        let helps: Vec<Vec<(&str, &str)>> = vec![vec![("m", "h")], vec![("m", "h")], vec![("m", "h2")], vec![], vec![("n", "x")], vec![("p", "x"), ("m", "h")]];
+        let mut dims: Vec<(&str, &str)> = vec![];
         for (i, o) in hist.iter().enumerate() {
             let col = (pool[o / 2].1)();
             let api = if o % 2 == 0 { "Registry::register" } else { "Registry::unregister" };
+            let my = &ids[o / 2];
+            let want = if o % 2 == 0 {
+                match my {
+                    None => Want::Err,
+                    Some(v) if v.iter().any(|x| reg_ids.contains(x)) || reg_cols.contains(v) => Want::Err,
+                    Some(_) if helps[o / 2].iter().any(|(n, h)| dims.iter().any(|(dn, dh)| dn == n && dh != h)) => Want::Err,
+                    Some(v) => {
+                        reg_ids.extend(v.iter());
+                        reg_cols.push(v.clone());
+                        for d in &helps[o / 2] {
+                            if !dims.contains(d) {
+                                dims.push(*d);
+                            }
+                        }
+                        Want::Ok
+                    }
+                }
+            } else {
+                let key: Vec<&str> = match my {
+                    Some(v) => v.clone(),
+                    None => vec!["n"],
+                };
+                match reg_cols.iter().position(|c| *c == key) {
+                    Some(p) => {
+                        reg_cols.remove(p);
+                        reg_ids.retain(|x| !key.contains(x));
+                        Want::Ok
+                    }
+                    None => Want::Err,
+                }
+            };
             let f = || if o % 2 == 0 { res(reg.register(col)) } else { res(reg.unregister(col)) };
             if i == last {
-                sw.call(api, "history", Want::Any, inp.clone(), f);
-            } else if catch(f).is_err() {
-                break;
+                sw.call(api, "history", want, inp.clone(), f);
+            } else {
+                match catch(f) {
+                    Ok(r) => {
+                        // an earlier step that already disagrees is reported when it is the last step of a shorter history
+                        if r.is_ok() != (want == Want::Ok) {
+                            break;
+                        }
+                    }
+                    Err(_) => break,
+                }
             }
         }
         sw.call("Registry::gather", "after-history", Want::Any, inp.clone(), || {
